@@ -371,6 +371,7 @@ func clusterCase(h *harness.H, c int) {
 	h.Count("cluster_state_vs_notification_checks", ck.nStateCk)
 	h.Count("cluster_leaseholder_completeness_checks", ck.nLeaseCk)
 	h.Count("cluster_quiescent_checkpoints", len(t.Checkpoints))
+	h.Count("cluster_multi_op_transactions", t.MultiOpTxs)
 	writes := 0
 	for _, hs := range t.Hist {
 		writes += len(hs)
